@@ -302,7 +302,17 @@ fn rand_list(rng: &mut Rng) -> Vec<ds::Horizontal> {
         7 | 8 => rng.range_usize(4, 16),
         _ => rng.range_usize(10, 40),
     };
-    (0..n).map(|_| rand_item(rng, 0)).collect()
+    // Half of the lists carry no boxes/rules at all: while the width/height swap (known finding) is
+    // present, only such lists are compared with the unmodified TeX model.
+    let boxes = rng.coin();
+    (0..n)
+        .map(|_| loop {
+            let it = rand_item(rng, 0);
+            if boxes || !matches!(it, ds::Horizontal::HBox(_) | ds::Horizontal::VBox(_) | ds::Horizontal::Rule(_)) {
+                break it;
+            }
+        })
+        .collect()
 }
 
 /// Targets at natural ± {0, 1sp, shrink, shrink+1sp, stretch, ...}.
@@ -594,7 +604,11 @@ fn check_case(case: Case, obs: &mut Obs, tally: &mut Tally, in_known_phase: bool
             matched = m.clone();
         }
         Some(sig) => {
-            let mut attributed: Option<(Packed, Vec<&'static str>)> = None;
+            // Every deviation combination whose triggers hold and whose prediction equals the
+            // observation. The defects actually present are one of them; only the ids common to all
+            // of them are certain, so only those are reported (never blame a defect that may already
+            // be fixed for something another one explains as well).
+            let mut matching: Vec<(Packed, Vec<&'static str>)> = vec![];
             for (swap, dom) in [(false, true), (true, false), (true, true)] {
                 if swap && !swap_trig {
                     continue;
@@ -613,10 +627,21 @@ fn check_case(case: Case, obs: &mut Obs, tally: &mut Tally, in_known_phase: bool
                     if dom {
                         ids.push(KNOWN_DOM);
                     }
-                    attributed = Some((dm, ids));
-                    break;
+                    matching.push((dm, ids));
                 }
             }
+            let attributed: Option<(Packed, Vec<&'static str>)> = if matching.is_empty() {
+                None
+            } else {
+                let common: Vec<&'static str> = [KNOWN_SWAP, KNOWN_DOM]
+                    .into_iter()
+                    .filter(|id| matching.iter().all(|(_, ids)| ids.contains(id)))
+                    .collect();
+                if common.is_empty() {
+                    tally.hit("known:explained-by-either-deviation-alone");
+                }
+                Some((matching.swap_remove(0).0, common))
+            };
             match attributed {
                 Some((dm, ids)) => {
                     for id in &ids {
@@ -775,13 +800,13 @@ impl Monitor for M {
             );
         }
         // one index = 32 random lists
-        v.push(Phase::new("random", tier.pick(10_000, 1_000_000)).batch(tier.pick(64, 1024)));
+        v.push(Phase::new("random", tier.pick(20_000, 1_000_000)).batch(tier.pick(64, 1024)));
         v
     }
     fn floors(&self, tier: Tier) -> Vec<(&'static str, u64)> {
         let s = tier.pick(1, 50);
         vec![
-            ("packs", tier.pick(400_000, 30_000_000)),
+            ("packs", tier.pick(700_000, 30_000_000)),
             ("class:stretch-normal", 2000 * s),
             ("class:stretch-fil", 2000 * s),
             ("class:stretch-fill", 1000 * s),
